@@ -98,6 +98,64 @@ def check_C14(chk, tier, seed):
                 qs.append(f"CMD {xb(n)}")
                 want.append(("cmd", hx(mm.cmds[n]) if n in mm.cmds else "none"))
             lines.append(("Q", f"Q {did} {len(qs)} " + " ".join(qs), (want, len(ops), sum(1 for k in mm.avps) )))
+    # the same dictionary OBJECT extended in place, step by step, looked up after every step; documents loaded again
+    # after some of their definitions were overridden (latest wins: the reload restores them); a clone taken in the
+    # middle, after which the two copies are extended and looked up independently
+    import copy
+
+    def queries(r, mm, did, nops):
+        qs, want = [], []
+        keys = [(c, v) for c in (1, 2, 3, 1000, 0, 0xffffffff, 264, 77) for v in (None, 1, 10415, 0, 0xffffffff, 5)]
+        for (c, v) in r.shuffle(keys)[:16]:
+            qs.append(f"AVP {hx(c)} {opt(v)}")
+            d = mm.avps.get((c, v))
+            want.append(("avp", fmt_def(d) if d else "none"))
+        for n in NAMES + [b"Nope"]:
+            qs.append(f"NAME {xb(n)}")
+            want.append(("name", sorted(fmt_def(d) for d in mm.avps.values() if d["name"] == n)))
+        for n in APPN + [b"Nope"]:
+            qs.append(f"APP {xb(n)}")
+            want.append(("app", hx(mm.apps[n]) if n in mm.apps else "none"))
+        for n in CMDN + [b"Nope"]:
+            qs.append(f"CMD {xb(n)}")
+            want.append(("cmd", hx(mm.cmds[n]) if n in mm.cmds else "none"))
+        return ("Q", f"Q {did} {len(qs)} " + " ".join(qs), (want, nops, len(mm.avps)))
+
+    for i in range(60 if tier == "quick" else 3000):
+        r = rng.fork(f"p{i}")
+        main, fork = f"m{i}", f"f{i}"
+        mm = {main: MapModel()}
+        docs = []
+        first = gen_doc(r)
+        docs.append(first)
+        mm[main].load(first)
+        lines.append(("D", dict_line(main, [load_toks(gen_xml(first), first)]), None))
+        nops = 1
+        for s_ in range(r.range(3, 9)):
+            tgt = r.choice(list(mm))
+            c = r.below(10)
+            if c < 3:
+                apps = gen_doc(r)
+                docs.append(apps)
+                op = load_toks(gen_xml(apps), apps)
+                mm[tgt].load(apps)
+            elif c < 5:
+                apps = r.choice(docs)               # a document this history has loaded before, byte for byte
+                op = load_toks(gen_xml(apps), apps)
+                mm[tgt].load(apps)
+            elif c < 6 and fork not in mm:
+                lines.append(("D", f"DFORK {main} {fork}", None))
+                mm[fork] = copy.deepcopy(mm[main])
+                continue
+            else:
+                d = def_of(gen_def(r))
+                op = add_toks(d)
+                mm[tgt].add(d)
+            nops += 1
+            lines.append(("D", f"DADD {tgt} {op}", None))
+            # look the changed copy up first, then the other one (a structure shared between the copies would show)
+            for did in [tgt] + [x for x in mm if x != tgt]:
+                lines.append(queries(r, mm[did], did, nops))
     cases = [l[1] for l in lines]
     # dictionaries are per-process state: keep each history in one shard by running unsharded batches
     impl = core.run_sharded([eng.harness, "codec"], eng.prelude, cases, shards=1, timeout=1800)
@@ -141,7 +199,8 @@ def check_C14(chk, tier, seed):
             chk.corr_break("lookup observation differs from the model", dict(case=c, history=short(lines[i - 1][1], 6000), impl=short(im, 2000), model=short(mo, 2000)))
         if i % max(1, len(lines) // 6) == 0:
             chk.sample(dict(case=c, impl=short(im, 200), P=ok))
-    chk.rule = (f"{nh} operation histories (0-2 documents passed to the constructor, then loads of generated XML documents and add_avp calls) over "
+    chk.rule = (f"{nh} operation histories (0-2 documents passed to the constructor, then loads of generated XML documents and add_avp calls) and further "
+                "histories that extend ONE dictionary object in place (documents loaded again after overrides; a clone taken midway, both copies extended and looked up) over "
                 "a pool of colliding codes/vendors/names, 17 `must` spellings, 16 type names + near misses; after EVERY step: 16 keyed lookups "
                 "(get_avp, get_avp_type, get_avp_name cross-checked), 10 name lookups, 4 application and 4 command lookups, compared with an independent "
                 "last-writer-wins map in the orchestrator (P) and with the extracted Coq model (correspondence); non-trivial = at least two operations")
@@ -194,6 +253,27 @@ def check_C15(chk, tier, seed):
                 data = SAMPLE_DATA[base]
                 cases.append(f"X {did} {xb(one_avp_frame(5000, wire_v, data))}")
                 expect.append(("scope", ty if scope == wire_v else None, tyname, scope, wire_v))
+    # one document declaring the same code in two scopes (vendor-less and vendor v, or v and w), in both orders: each wire
+    # AVP is typed by the entry of exactly its pair, the third scope is refused
+    pairs = [("u32", "utf"), ("oct", "u64"), ("ip4", "time"), ("grp", "en"), ("i64", "ip6")]
+    for (ta, tb) in pairs:
+        for (sa, sb) in ((None, 10415), (10415, None), (10415, 77), (0, None)):
+            did = f"t{k}"
+            k += 1
+            apps = [dict(name=b"GenApp", id=4, cmds=[], avps=[dict(code=5000, vendor=sa, name=b"Probe-A", tyname=TY_XML_NAME[ta].encode(), must=None),
+                                                                 dict(code=5000, vendor=sb, name=b"Probe-B", tyname=TY_XML_NAME[tb].encode(), must=b"M")])]
+            prelude.append(dict_line(did, [load_toks(gen_xml(apps), apps)]))
+            for wire_v in (None, 10415, 77, 0):
+                ty = ta if wire_v == sa else tb if wire_v == sb else None
+                data = SAMPLE_DATA[ty or "u32"]
+                cases.append(f"X {did} {xb(one_avp_frame(5000, wire_v, data))}")
+                expect.append(("scope", ty, f"{TY_XML_NAME[ta]}/{TY_XML_NAME[tb]} twins", (sa, sb), wire_v))
+    # the same table again in another order: consecutive decodes now carry the SAME (code, vendor) on the wire under
+    # DIFFERENT dictionaries (an answer remembered from the previous decode, keyed by code and vendor only, would be wrong)
+    n0 = len(cases)
+    for i in sorted(range(n0), key=lambda i: (str(expect[i][4]), i)):
+        cases.append(cases[i])
+        expect.append(expect[i])
     # (b) every definition of the shipped dictionaries
     for name, xml in shipped_dicts():
         did = "s" + name
@@ -237,7 +317,7 @@ def check_C15(chk, tier, seed):
             want_ok = ty is not None and ty != "unk"
             if im.startswith("OK ") != want_ok:
                 ok = False
-                chk.violation(f"AVP (code 5000, vendor {wire_v}) with the only entry under vendor {scope} and type name '{tyname}': "
+                chk.violation(f"AVP (code 5000, vendor {wire_v}) with the entry/entries under vendor {scope} and type name '{tyname}': "
                               + ("decoded although no entry / no recognised type applies" if not want_ok else "rejected although its exact entry has a recognised type"),
                               dict(case=c, impl=short(im, 1000)))
             elif want_ok:
@@ -302,6 +382,14 @@ def check_C16(chk, tier, seed):
             v = ("L", SAMPLE_LEAF.get(ty, SAMPLE_LEAF["u32"])) if ty != "grp" else ("GN", [])
             cases.append(hist_line(did, ("NEW", 272, 4, 0x80, 1, 2), [("ADDNAME", nm, v)]))
             expect.append(("byname", ds, v, did))
+            # the value given need not be of the declared type (the builder does not consult it): a narrower / related kind
+            # must be carried exactly as given, as it is when the AVP is built from explicit numbers
+            other = {"u64": "u32", "i64": "i32", "f64": "f32", "ip6": "ip4", "addr": "ip4", "id": "utf", "uri": "oct", "u32": "u64", "i32": "en",
+                     "en": "i32", "utf": "oct", "oct": "utf", "time": "u32", "f32": "u32", "ip4": "u32", "grp": "oct"}.get(ty)
+            if other and (did in ("g", "x") or len(names) < 200 or ty in ("u64", "i64", "f64")):
+                v2 = ("L", SAMPLE_LEAF[other])
+                cases.append(hist_line(did, ("NEW", 272, 4, 0x80, 1, 2), [("ADDNAME", nm, v2)]))
+                expect.append(("byname", ds, v2, did))
     # names that were declared once but whose key has since been re-declared under another name: no live definition carries them
     for did in ("g", "x"):
         live_names = {d["name"] for d in eng.dicts[did].live()}
@@ -318,7 +406,8 @@ def check_C16(chk, tier, seed):
                                   None,
                                   dict(code=9201 + rnd, vendor=None, name=nm, ty="u32", m=False)]):
             other = dict(code=7000, vendor=None, name=b"Other-Name", ty="u32", m=False)
-            cases.append(dict_line("tmpq", [add_toks(other)] + ([add_toks(d)] if d else [])))
+            dl = dict_line("tmpq", [add_toks(other)] + ([add_toks(d)] if d else []))
+            cases.append(dl if step == 0 and rnd == 0 else "DSWAP" + dl[1:])
             expect.append(("ctl", None, 0, "-"))
             v = ("L", SAMPLE_LEAF["u32"])
             cases.append(hist_line("tmpq", ("NEW", 272, 4, 0x80, 1, 2), [("ADDNAME", nm, v)]))
@@ -326,8 +415,7 @@ def check_C16(chk, tier, seed):
                 expect.append(("byname", [d], v, "g"))
             else:
                 expect.append(("stale", hist_line("g", ("NEW", 272, 4, 0x80, 1, 2), []), 0, "g"))
-            cases.append("DROP tmpq")
-            expect.append(("ctl", None, 0, "-"))
+
     # unknown names interleaved in histories: the failed call must change nothing
     n = 600 if tier == "quick" else 30000
     for i in range(n):
@@ -367,6 +455,9 @@ def check_C16(chk, tier, seed):
             chk.violation("crash: " + short(im, 200), dict(case=c, impl=short(im)))
             continue
         if ex[0] == "ctl":
+            if im.startswith("OK same-address"):
+                chk.count("dictionary-recreated-at-same-address")
+                im = "OK"
             if im != "OK":
                 chk.violation("a dictionary could not be created / dropped: " + short(im, 200), dict(case=c, impl=short(im)))
             continue
